@@ -197,16 +197,20 @@ def proof_audit(pid, thorough=False):
     reg = registered_theorems().get(pid, [])
     failures = []
     mod = "EoNVerif.Props.%s" % pid
-    p = subprocess.run(["lake", "build", mod], cwd=LEAN, capture_output=True, text=True)
+    # companion modules Props/<pid>b.lean, <pid>c.lean, ... belong to the same property
+    mods = [mod] + sorted("EoNVerif.Props." + f[:-5] for f in os.listdir(os.path.join(LEAN, "EoNVerif", "Props"))
+                          if re.fullmatch(re.escape(pid) + r"[a-z]\.lean", f))
+    p = subprocess.run(["lake", "build", *mods], cwd=LEAN, capture_output=True, text=True)
     built = p.returncode == 0
     if not built:
-        failures.append("lake build %s failed: %s" % (mod, (p.stdout + p.stderr)[-1500:]))
+        failures.append("lake build %s failed: %s" % (" ".join(mods), (p.stdout + p.stderr)[-1500:]))
     results = {}
     if built and reg:
         os.makedirs(os.path.join(LEAN, ".audit"), exist_ok=True)
         af = os.path.join(LEAN, ".audit", "Audit_%s.lean" % pid)
         with open(af, "w") as f:
-            f.write("import %s\n" % mod)
+            for m_ in mods:
+                f.write("import %s\n" % m_)
             for t in reg:
                 f.write("#print axioms %s\n" % t)
         p = subprocess.run(["lake", "env", "lean", af], cwd=LEAN, capture_output=True, text=True)
@@ -225,7 +229,7 @@ def proof_audit(pid, thorough=False):
                 failures.append("theorem %s missing or not elaborating" % t)
     # forbidden tokens (outside comments) in every file the property module transitively imports
     grep_bad = []
-    for path in import_closure(mod):
+    for path in sorted({q for m_ in mods for q in import_closure(m_)}):
         fn = os.path.basename(path)
         src = open(path).read()
         src = re.sub(r"/-.*?-/", "", src, flags=re.S)
@@ -244,7 +248,7 @@ def proof_audit(pid, thorough=False):
         obligations += o
         discharged += d
     if thorough and built:
-        p = subprocess.run(["lake", "env", "leanchecker", mod], cwd=LEAN, capture_output=True, text=True)
+        p = subprocess.run(["lake", "env", "leanchecker", *mods], cwd=LEAN, capture_output=True, text=True)
         obligations += 1
         if p.returncode == 0:
             discharged += 1
